@@ -116,6 +116,46 @@ impl<'a, 'b: 'a> Parent<'a, 'b, Occurrence<'a>> for Occur {
   }
 }
 
+/// Whether two handles denote the same AST node. Nodes held by reference are
+/// compared by address: structurally equal sub-expressions that occur at
+/// different places of a document (the same identifier used twice, the same
+/// entry repeated in a group) are different nodes with different parents.
+/// `Occur` and `Value` are held by value and have no identity of their own, so
+/// they are compared by equality.
+fn same_node<'a, 'b: 'a>(a: &CDDLType<'a, 'b>, b: &CDDLType<'a, 'b>) -> bool {
+  use core::ptr::eq;
+
+  match (a, b) {
+    (CDDLType::CDDL(a), CDDLType::CDDL(b)) => eq(*a, *b),
+    (CDDLType::Rule(a), CDDLType::Rule(b)) => eq(*a, *b),
+    (CDDLType::TypeRule(a), CDDLType::TypeRule(b)) => eq(*a, *b),
+    (CDDLType::GroupRule(a), CDDLType::GroupRule(b)) => eq(*a, *b),
+    (CDDLType::Group(a), CDDLType::Group(b)) => eq(*a, *b),
+    (CDDLType::GroupChoice(a), CDDLType::GroupChoice(b)) => eq(*a, *b),
+    (CDDLType::GenericParams(a), CDDLType::GenericParams(b)) => eq(*a, *b),
+    (CDDLType::GenericParam(a), CDDLType::GenericParam(b)) => eq(*a, *b),
+    (CDDLType::GenericArgs(a), CDDLType::GenericArgs(b)) => eq(*a, *b),
+    (CDDLType::GenericArg(a), CDDLType::GenericArg(b)) => eq(*a, *b),
+    (CDDLType::GroupEntry(a), CDDLType::GroupEntry(b)) => eq(*a, *b),
+    (CDDLType::Identifier(a), CDDLType::Identifier(b)) => eq(*a, *b),
+    (CDDLType::Type(a), CDDLType::Type(b)) => eq(*a, *b),
+    (CDDLType::TypeChoice(a), CDDLType::TypeChoice(b)) => eq(*a, *b),
+    (CDDLType::Type1(a), CDDLType::Type1(b)) => eq(*a, *b),
+    (CDDLType::Type2(a), CDDLType::Type2(b)) => eq(*a, *b),
+    (CDDLType::Operator(a), CDDLType::Operator(b)) => eq(*a, *b),
+    (CDDLType::RangeCtlOp(a), CDDLType::RangeCtlOp(b)) => eq(*a, *b),
+    (CDDLType::ControlOperator(a), CDDLType::ControlOperator(b)) => eq(*a, *b),
+    (CDDLType::Occurrence(a), CDDLType::Occurrence(b)) => eq(*a, *b),
+    (CDDLType::ValueMemberKeyEntry(a), CDDLType::ValueMemberKeyEntry(b)) => eq(*a, *b),
+    (CDDLType::TypeGroupnameEntry(a), CDDLType::TypeGroupnameEntry(b)) => eq(*a, *b),
+    (CDDLType::MemberKey(a), CDDLType::MemberKey(b)) => eq(*a, *b),
+    (CDDLType::NonMemberKey(a), CDDLType::NonMemberKey(b)) => eq(*a, *b),
+    (CDDLType::Occur(a), CDDLType::Occur(b)) => a == b,
+    (CDDLType::Value(a), CDDLType::Value(b)) => a == b,
+    _ => false,
+  }
+}
+
 #[derive(Debug, Default, Clone)]
 struct ArenaTree<'a, 'b: 'a> {
   arena: Vec<Node<'a, 'b>>,
@@ -124,7 +164,7 @@ struct ArenaTree<'a, 'b: 'a> {
 impl<'a, 'b: 'a> ArenaTree<'a, 'b> {
   fn node(&mut self, val: CDDLType<'a, 'b>) -> usize {
     for node in self.arena.iter() {
-      if node.val == val {
+      if same_node(&node.val, &val) {
         return node.idx;
       }
     }
@@ -190,7 +230,7 @@ impl<'a, 'b: 'a> ParentVisitor<'a, 'b> {
 impl<'a, 'b: 'a> CDDLType<'a, 'b> {
   pub fn parent(&self, visitor: &'b ParentVisitor<'a, 'b>) -> Option<&'b CDDLType<'a, 'b>> {
     for node in visitor.arena_tree.arena.iter() {
-      if self == &node.val {
+      if same_node(self, &node.val) {
         if let Some(parent_idx) = node.parent {
           if let Some(parent) = visitor.arena_tree.arena.get(parent_idx) {
             return Some(&parent.val);
